@@ -367,6 +367,11 @@ func shouldRespondDelta(con *Connection, request *discovery.DeltaDiscoveryReques
 		deltaLog.Warnf("ADS:%s: ACK ERROR %s %s:%s", stype, con.ID(), errCode.String(), request.ErrorDetail.GetMessage())
 		xds.IncrementXDSRejects(request.TypeUrl, con.proxy.ID, errCode.String())
 		con.proxy.UpdateWatchedResource(request.TypeUrl, func(wr *model.WatchedResource) *model.WatchedResource {
+			if wr == nil {
+				// A rejection for a type we hold no subscription for: the first message of the type on
+				// this stream, or the client unsubscribed while the rejected response was in flight.
+				return nil
+			}
 			wr.LastError = request.ErrorDetail.GetMessage()
 			return wr
 		})
